@@ -297,6 +297,7 @@ func main() {
 			stopProfile = pprof.StopCPUProfile
 		}
 	}
+	descToStderr = *oneCase >= 0
 	skipSet := map[int]bool{}
 	for _, f := range strings.Split(*skip, ",") {
 		if f != "" {
@@ -563,6 +564,18 @@ func main() {
 // currentDesc is a short description of the running case (set by the
 // property as early as it can), used as the signature of a hang.
 var currentDesc atomic.Value
+
+// descToStderr: a worker that runs a single case (a confirmation in isolation)
+// also writes the description to stderr, so that the coordinator can tell
+// which kind of workload a dying process was running.
+var descToStderr bool
+
+func setDesc(s string) {
+	currentDesc.Store(s)
+	if descToStderr {
+		fmt.Fprintf(os.Stderr, "\nverif-case: %s\n", s)
+	}
+}
 
 func doReplay(p Prop, path string) int {
 	data, err := os.ReadFile(path)
